@@ -10,9 +10,10 @@ Driver for C14. Case fields (after the id):
   obs      o|o|…     o  = x;status;body;ctype;cenc;headers;ran;held | panic | deadlock | skipped
 The model is run with the same `step` function the theorems are about: sequential ops run their
 thread to completion, concurrent groups release threads in the scheduled order (a release runs the
-thread from one yield point – KeyGenerator, [with `sy`: the end of Storage.Get inside the first
-critical section,] origin handler – to the next, or until it blocks on `mux`; a blocked thread goes on
-by itself, first come first served, as soon as the holder unlocks).
+thread from one yield point – KeyGenerator, [with `sy`: the end of the entry Get inside the first
+critical section and, with an injected storage, the START of the `_body` Get of a hit,] origin
+handler – to the next, or until it blocks on `mux`; a blocked thread goes on by itself, first come
+first served, as soon as the holder unlocks).
 -/
 open B DriverUtil C14
 
@@ -179,26 +180,48 @@ def stepUntil (cfg : Config) (stop : Pc → Bool) : Nat → G → Nat → G
     | none => g
     | some g' => if stop (pcOf g' t) then g' else stepUntil cfg stop f g' t
 
-/-- run thread `t` until it is parked, finished, or blocked on `mux` (then it joins the wait queue) -/
-def advance (cfg : Config) (sy : Bool) : Nat → G × List Nat → Nat → G × List Nat
-  | 0, gq, _ => gq
-  | f + 1, (g, q), t =>
-    match step cfg g t with
-    | none => if pcOf g t == .wantLock1 || pcOf g t == .wantLock2 then (g, q ++ [t]) else (g, q)
-    | some g' => if parked sy (pcOf g' t) then (g', q) else advance cfg sy f (g', q) t
+/-- scheduler state of a concurrent group: the model state, the threads blocked on `mux` (first come
+    first served) and the threads parked at the START of the `_body` Get of a hit (inside the first
+    critical section, mutex held: the model's `sec1` step has not been taken yet) -/
+structure Sch where
+  g : G
+  q : List Nat := []
+  atB : List Nat := []
+
+/-- does thread `t` stand inside the first section right before a hit (the next thing the code does is
+    `manager.getRaw(key + "_body")`)? -/
+def hitNext (cfg : Config) (g : G) (t : Nat) : Bool :=
+  match g.threads[t]? with
+  | some th =>
+    th.pc == .sec1 &&
+      (match sec1 cfg g.sh g.ts g.uts th.req (mkKey th.req) with
+       | .hit _ => true
+       | _ => false)
+  | none => false
+
+/-- run thread `t` until it is parked, finished, or blocked on `mux` (then it joins the wait queue).
+    `sy` with an injected storage: a hit also parks before its body Get. -/
+def advance (cfg : Config) (sy : Bool) : Nat → Sch → Nat → Sch
+  | 0, s, _ => s
+  | f + 1, s, t =>
+    if sy && cfg.ext && !s.atB.contains t && hitNext cfg s.g t then { s with atB := t :: s.atB }
+    else
+      match step cfg s.g t with
+      | none => if pcOf s.g t == .wantLock1 || pcOf s.g t == .wantLock2 then { s with q := s.q ++ [t] } else s
+      | some g' => if parked sy (pcOf g' t) then { s with g := g' } else advance cfg sy f { s with g := g' } t
 
 /-- hand the free mutex to the waiting threads, first come first served -/
-def settle (cfg : Config) (sy : Bool) : Nat → G × List Nat → G × List Nat
-  | 0, gq => gq
-  | f + 1, (g, q) =>
-    match g.mux, q with
-    | none, u :: rest => settle cfg sy f (advance cfg sy 10 (g, rest) u)
-    | _, _ => (g, q)
+def settle (cfg : Config) (sy : Bool) : Nat → Sch → Sch
+  | 0, s => s
+  | f + 1, s =>
+    match s.g.mux, s.q with
+    | none, u :: rest => settle cfg sy f (advance cfg sy 10 { s with q := rest } u)
+    | _, _ => s
 
 /-- one release of a thread by the scheduler: run from one yield point to the next; a thread that is
     blocked on `mux` is not parked, releasing it does nothing -/
-def release (cfg : Config) (sy : Bool) (gq : G × List Nat) (t : Nat) : G × List Nat :=
-  if gq.2.contains t then gq else settle cfg sy 16 (advance cfg sy 10 gq t)
+def release (cfg : Config) (sy : Bool) (s : Sch) (t : Nat) : Sch :=
+  if s.q.contains t then s else settle cfg sy 16 (advance cfg sy 10 s t)
 
 def finished (g : G) (t : Nat) : Bool := pcOf g t == .done || pcOf g t == .panicked
 
@@ -259,16 +282,18 @@ def runModel (cfg : Config) (sy : Bool) (ops : List DOp) (scheds : List (Nat × 
       else
         let n := ((arr.toList.drop i).takeWhile (·.grp == o.grp)).length
         let sched := ((scheds.find? (·.1 == o.grp)).map (·.2)).getD []
-        let mut gq : G × List Nat := (g, [])
+        let mut gq : Sch := { g := g }
         for t in sched do
           gq := release cfg sy gq (i + t)
-          if !gq.2.isEmpty && !tags.contains "mutex-wait" then tags := "mutex-wait" :: tags
+          if !gq.q.isEmpty && !tags.contains "mutex-wait" then tags := "mutex-wait" :: tags
+          if !gq.q.isEmpty && !gq.atB.isEmpty && !tags.contains "wait-behind-body-get" then tags := "wait-behind-body-get" :: tags
         -- drain: the lowest thread that can be released (unfinished and not blocked on `mux`)
-        for _ in [0:4 * n + 4] do
-          match (List.range n).find? (fun t => !finished gq.1 (i + t) && !gq.2.contains (i + t)) with
+        for _ in [0:5 * n + 4] do
+          match (List.range n).find? (fun t => !finished gq.g (i + t) && !gq.q.contains (i + t)) with
           | some t => gq := release cfg sy gq (i + t)
           | none => pure ()
-        g := gq.1
+        if !gq.atB.isEmpty && !tags.contains "body-get-yield" then tags := "body-get-yield" :: tags
+        g := gq.g
         if g.sh.heap.live.length > g.sh.store.length && !tags.contains "ghost-entry" then tags := "ghost-entry" :: tags
         for t in [0:n] do
           let s := obsOf cfg g (i + t)
